@@ -689,3 +689,72 @@ Proof.
   apply score_inv in Hs.
   destruct Hs as [(-> & _)|[(-> & _)|[(-> & _)|[(-> & _)|(_ & _ & ->)]]]]; try lia. congruence.
 Qed.
+
+(* ------------------------------------------------------------------ fast index *)
+Lemma fast_lookup_fold rs k v : forall acc,
+  fold_left (fun acc r => if index_key_is k v r then Some r else acc) rs acc =
+  match fast_lookup rs k v with Some r => Some r | None => acc end.
+Proof.
+  unfold fast_lookup. induction rs as [|r rs IH]; intros acc; cbn [fold_left]; [reflexivity|].
+  rewrite (IH (if index_key_is k v r then Some r else acc)), (IH (if index_key_is k v r then Some r else None)).
+  destruct (fold_left _ rs None); [reflexivity|]. destruct (index_key_is k v r); reflexivity.
+Qed.
+
+(* the index holds, under key/value, the LAST route whose only header criterion is key = value; nothing if there is none *)
+Theorem fast_lookup_spec rs k v :
+  match fast_lookup rs k v with
+  | Some r => exists pre post, rs = (pre ++ r :: post)%list /\ index_key_is k v r = true /\
+                               Forall (fun x => index_key_is k v x = false) post
+  | None => Forall (fun x => index_key_is k v x = false) rs
+  end.
+Proof.
+  induction rs as [|r rs IH]; [constructor|].
+  unfold fast_lookup. cbn [fold_left]. rewrite fast_lookup_fold.
+  destruct (fast_lookup rs k v) as [r'|].
+  - destruct IH as (pre & post & -> & Hk & Hpost). exists (r :: pre), post. auto.
+  - destruct (index_key_is k v r) eqn:E.
+    + exists [], rs. auto.
+    + constructor; assumption.
+Qed.
+
+(* where the index can stand for the scan: the first matching route, if it is the only route recorded under its
+   key/value, is what the index returns for that key/value *)
+Theorem fast_lookup_finds_first_match rs rq r k v :
+  first_route rs rq = Some r -> index_key_is k v r = true ->
+  (forall r', In r' rs -> index_key_is k v r' = true -> r' = r) ->
+  fast_lookup rs k v = Some r.
+Proof.
+  intros Hf Hk Huniq. pose proof (first_route_spec rs rq) as Hs. rewrite Hf in Hs.
+  destruct Hs as (pre & post & Hrs & _ & _).
+  pose proof (fast_lookup_spec rs k v) as Hl. destruct (fast_lookup rs k v) as [r'|].
+  - destruct Hl as (pre' & post' & Hrs' & Hk' & _). f_equal. apply Huniq; [|exact Hk'].
+    rewrite Hrs'. apply in_or_app. right. now left.
+  - rewrite Forall_forall in Hl. assert (In r rs) as Hin by (rewrite Hrs; apply in_or_app; right; now left).
+    rewrite (Hl _ Hin) in Hk. discriminate.
+Qed.
+
+(* and conversely: an indexed candidate that matches is the scan's answer when no earlier route matches - in
+   particular when it is the only matching route; with several matching routes the index (last route per key/value,
+   no order between keys) need NOT give the first one, so a lookup may use it only under this condition *)
+Theorem fast_candidate_is_first_match rs rq r k v :
+  fast_lookup rs k v = Some r -> route_holds rq r = true ->
+  (forall r', In r' rs -> route_holds rq r' = true -> r' = r) ->
+  first_route rs rq = Some r.
+Proof.
+  intros Hl Hh Huniq. pose proof (first_route_spec rs rq) as Hs. destruct (first_route rs rq) as [r'|].
+  - destruct Hs as (pre & post & Hrs & Hh' & _). f_equal. apply Huniq; [|exact Hh'].
+    rewrite Hrs. apply in_or_app. right. now left.
+  - pose proof (fast_lookup_spec rs k v) as Hk. rewrite Hl in Hk. destruct Hk as (pre & post & Hrs & _ & _).
+    rewrite Forall_forall in Hs. assert (In r rs) as Hin by (rewrite Hrs; apply in_or_app; right; now left).
+    rewrite (Hs _ Hin) in Hh. discriminate.
+Qed.
+
+(* the counter-example shape: two matching routes under one key/value - the index gives the later one, the scan the
+   earlier one *)
+Theorem fast_index_is_not_first_match :
+  let r1 := Build_route (Build_rmatch "/api/v1" "" None [Build_hmatch "x-env" "gray" None] [] []) "first" false in
+  let r2 := Build_route (Build_rmatch "/api" "" None [Build_hmatch "x-env" "gray" None] [] []) "second" false in
+  let rq := Build_request [("x-mosn-path", "/api/v1/x")] [("x-env", "gray")] [] [] in
+  option_map r_cluster (first_route [r1; r2] rq) = Some "first" /\
+  option_map r_cluster (fast_lookup [r1; r2] "x-env" "gray") = Some "second".
+Proof. vm_compute. split; reflexivity. Qed.
